@@ -219,6 +219,17 @@ func (e *c01env) exec(c *Ctx, kind string, nt *c01net, args ...[]byte) {
 		}
 		out = c01call(func() string { return errStr(nt.p.VerifDHandleOfferedContents(e.peer.ID(), keys, args[1])) })
 		c.Emit("stream %s %d %s | %s", nt.name, nk, hx(args[1]), out)
+	case "streamfull":
+		// the same stream body handed over while the content queue is full and nobody drains it (a busy validation loop)
+		nk := int(args[0][0])
+		out = c01call(func() string {
+			returned, err := portalwire.VerifFramingOfferedContentsFullQueue(nk, args[1], 3, 3, 3*time.Second)
+			if !returned {
+				return "hang"
+			}
+			return errStr(err)
+		})
+		c.Emit("streamfull %s %d %s | %s", nt.name, nk, hx(args[1]), out)
 	case "validate":
 		out = c01call(func() string { return errStr(nt.val.ValidateContent(args[0], args[1])) })
 		c.Emit("validate %s %s %s | %s", nt.name, hx(args[0]), hx(args[1]), out)
@@ -301,7 +312,7 @@ func runC01(c *Ctx) {
 				continue
 			}
 			switch f[0] {
-			case "stream":
+			case "stream", "streamfull":
 				k, _ := strconv.Atoi(f[2])
 				env.exec(c, f[0], nt, []byte{byte(k)}, unhx(f[3]))
 			case "validate", "put":
@@ -355,6 +366,12 @@ func runC01(c *Ctx) {
 			env.exec(c, "stream", nt, []byte{1}, unhx(h))
 			env.exec(c, "stream", nt, []byte{2}, append(unhx(h), 0))
 		}
+	}
+	for _, items := range [][][]byte{{{1, 2, 3}}, {{}, {9}}, {r.Bytes(200)}, {r.Bytes(5), r.Bytes(130)}} {
+		body := portalwire.VerifEncodeContents(items)
+		env.exec(c, "streamfull", env.nets[0], []byte{byte(len(items))}, body)
+		env.exec(c, "streamfull", env.nets[0], []byte{byte(len(items) + 1)}, body)
+		env.exec(c, "streamfull", env.nets[0], []byte{byte(len(items))}, append(append([]byte{}, body...), 0x80))
 	}
 	// (a') stateful prelude: a stored historical-summaries record, then short / long keys of that type
 	for _, nt := range env.nets {
